@@ -89,7 +89,9 @@ def run(tier, argv):
     for m in vlib.read_ndjson(rrout):
         bad.append({"what": m["what"], "op": "regex.Check" if m["what"] == "robust" else "regex." + m["want"], "input": bytes(m["bytes"]).decode("latin-1"), "kind": m["got"].get("kind"),
                     "pos": m["got"].get("pos"), "srclen": len(m["bytes"]), "file": "@r", "msg": (m["got"].get("msg") or m["got"].get("panic") or "")[:300]})
-    for b in semcommon.lex_diff_tier(work, rep, hbin, PROP, 200000 if quick else 20000000):
+    # a call that does not return would not return in the differential tier either (which has no watchdog of its own): once one was seen, the run ends here
+    hung = any(b.get("kind") == "timeout" or "no-termination" in str(b.get("what")) or b.get("what") == "hang" for b in bad)
+    for b in ([] if hung else semcommon.lex_diff_tier(work, rep, hbin, PROP, 200000 if quick else 20000000)):
         bad.append({"what": "panic", "op": "scanner (differential)", "input": b["text"][:200], "kind": "panic", "pos": -1, "srclen": len(b["text"]), "file": "", "msg": b["what"][:300]})
     ops = {}
     for e in lines:
